@@ -15,7 +15,7 @@ SCR = "/tmp/sw_matrix"
 EXTRA = {"C03": ["C02", "C05"], "C08": ["C02", "C09"], "C09": ["C10", "C14"], "C19": ["C06"], "C14": ["C15"], "C02": ["C05", "C03"],
          "C15": ["C14"], "C06": [], "C04": [], "C13": ["C02", "C06", "C10"], "C12": ["C15"]}
 # per-change override (third round): the kernels touched by these changes belong to other properties' contracts
-EXTRA_BY_ID = {"C13-4": ["C12"], "C13-5": ["C01"], "C11-4": ["C13"]}
+EXTRA_BY_ID = {"C13-4": ["C12"], "C13-5": ["C01"], "C11-4": ["C13"], "C09-5": ["C11", "C10"]}
 CLAIMED = [c["property_id"] for c in json.load(open(os.path.join(HERE, "MANIFEST.json")))["checks"]]
 
 
